@@ -58,12 +58,39 @@ def vi(n: int):
 
 
 NAN, NONE = {"t": "nan"}, {"t": "none"}
+PINF, NINF = {"t": "inf", "pos": True}, {"t": "inf", "pos": False}
+
+
+def npi(n: int, dt="int64"):
+    """a number carried by a numpy integer scalar (not an instance of int | float)"""
+    return {"t": "npint", "v": int(n), "dt": dt}
+
+
+def npf(x: float, dt="float32"):
+    """a number carried by a numpy float scalar; float64 IS a python float (subclass), float32 is not"""
+    return {"t": "npfloat", "v": float(x).hex(), "dt": dt}
+
+
+def npnan(dt="float32"):
+    return {"t": "npnan", "dt": dt}
+
+
+def exact_f32(x: float) -> bool:
+    import struct
+    try:
+        return struct.unpack("f", struct.pack("f", x))[0] == x
+    except OverflowError:
+        return False
+
+
+def is_np_carrier(x) -> bool:
+    return x["t"] in ("npint", "npfloat", "npnan") and x.get("dt") != "float64"
 
 
 def value_q(x):
-    if x["t"] == "int":
+    if x["t"] in ("int", "npint"):
         return Fraction(x["v"])
-    if x["t"] == "float":
+    if x["t"] in ("float", "npfloat"):
         return Fraction(float.fromhex(x["v"]))
     return None
 
@@ -76,8 +103,37 @@ def cvalue(x) -> str:
         return "VNaN"
     if t == "seq":
         return f"(VSeq {x['n']}%nat)"
+    if t == "inf":
+        return f"(VInf {core.cbool(x['pos'])})"
+    if t == "npnan":
+        return "VNpNaN" if is_np_carrier(x) else "VNaN"
     q = value_q(x)
-    return f"(VNum {core.cq(q.numerator, q.denominator)})"
+    ctor = "VNpNum" if is_np_carrier(x) else "VNum"
+    return f"({ctor} {core.cq(q.numerator, q.denominator)})"
+
+
+def np_values(r, lo, hi, seqlen, small):
+    """the same numbers carried by numpy scalars, and +-inf"""
+    idt = lambda: r.choice(["int64", "int32", "int64"])
+    if seqlen is not None:
+        return [npi(0, idt()), npi(2, idt()), npf(5.0), npf(0.0), npnan(), npf(2.0, "float64"), PINF]
+    if small:
+        return [npi(-1, idt()), npi(0, idt()), npi(3, idt()), npi(r.randrange(1, 9), idt()), npnan(), PINF, NINF]
+    vs = [npnan(), npnan("float64"), PINF, NINF, npi(0, idt()), npf(0.0)]
+    for b in [b for b in (lo, hi) if b is not None]:
+        vs += [npi(b, idt()), npi(b - 1, idt()), npi(b + 1, idt())]
+        for f in (b - 0.5, b + 0.5, b + 0.25):
+            if exact_f32(f):
+                vs.append(npf(f))
+        vs.append(npf(b + 0.5, "float64"))
+    if hi is not None:
+        mid = (lo + hi) // 2 if hi - lo >= 2 else None
+        if mid is not None:
+            vs += [npi(mid, idt())]
+        vs += [npf((lo + hi) / 2), npi(10 * hi + 7, idt()), npi(lo - 5, idt())]
+    else:
+        vs += [npi(lo + 7, idt()), npf(lo + 2.5), npi(lo - 5, idt())]
+    return vs
 
 
 def gen_values(r, lo, hi, integer, seqlen, small, n_random):
@@ -127,8 +183,16 @@ def gen_guard_cases(ctx: Ctx, n_random: int):
                 seen.add(key)
                 if path == "sweep" and x["t"] == "none":
                     continue  # Processor.set has no notion of None (TypeError before any setter)
-                if path == "yaml" and small and x["t"] == "nan":
+                if path == "yaml" and small and x["t"] in ("nan", "inf"):
                     continue  # refused later by the frame allocation, not by the guard that is modelled here
+                cases.append(dict(k="guard", cls=cls, field=field, path=path, det=r.choice(dets), x=x))
+            for x in np_values(r, lo, hi, seqlen, small):
+                key = json.dumps(x, sort_keys=True)
+                if key in seen:
+                    continue
+                seen.add(key)
+                if path == "yaml" and (x["t"] != "inf" or small):
+                    continue  # a YAML document cannot carry a numpy scalar
                 cases.append(dict(k="guard", cls=cls, field=field, path=path, det=r.choice(dets), x=x))
     return cases
 
@@ -140,10 +204,16 @@ def classify_value(c):
     t = x["t"]
     if t in ("nan", "none"):
         return t
+    if t == "npnan":
+        return "nan"
     if seqlen is not None:
         if t == "seq":
             return "sequence" if x["n"] else "empty-sequence"
+        if t == "inf":
+            return "number"
         return "number" if value_q(x) != 0 else "zero-number"
+    if t == "inf":
+        return "above" if x["pos"] else "below"
     q = value_q(x)
     if q == 0 and lo > 0:
         return "zero"
@@ -174,7 +244,7 @@ def guard_violation(c, o) -> Violation:
     what = (f"{c['cls']}.{c['field']} via {c['path']}: value {show_value(c['x'])} ({kind}) is "
             f"{'accepted' if acc else 'refused'}, the documented range says the opposite")
     sig = dict(clause="same_limits", field=f"{c['cls']}.{c['field']}", path=c["path"], value=kind,
-               outcome="accepted" if acc else "refused")
+               outcome="accepted" if acc else "refused", carrier="numpy" if is_np_carrier(c["x"]) else "python")
     return Violation(clause="same_limits", case=c, observed=o,
                      expected="accepted iff inside the documented range (None: iff the field is optional)",
                      what=what, sig=sig)
@@ -188,6 +258,14 @@ def show_value(x):
         return str(x["v"])
     if t == "seq":
         return f"sequence of {x['n']}"
+    if t == "inf":
+        return "inf" if x["pos"] else "-inf"
+    if t == "npint":
+        return f"numpy.{x['dt']}({x['v']})"
+    if t == "npfloat":
+        return f"numpy.{x['dt']}({float.fromhex(x['v'])!r})"
+    if t == "npnan":
+        return f"numpy.{x['dt']}('nan')"
     return t
 
 
